@@ -8,6 +8,7 @@ import (
 	"context"
 	"encoding/hex"
 	"fmt"
+	"io"
 	"os"
 	"path/filepath"
 	"regexp"
@@ -67,6 +68,7 @@ const (
 type Tab struct {
 	Name   string
 	File   bool
+	Stdin  bool // the session's STDIN table: in memory, neither a file nor a DECLAREd temporary table
 	Cols   []string
 	Kind   map[string]int
 	NextID int
@@ -152,6 +154,7 @@ type Runner struct {
 	Poison            bool
 	afterFailedCommit bool
 	commitLaw         bool // a law about COMMIT failed in this runner
+	ReloadEachAttempt bool // ScanCancel: ROLLBACK before every attempt
 }
 
 var wrapSeq int64
@@ -321,8 +324,15 @@ func NewSequence(g *hc.Gen, o *hc.Out, root string, seqNo int, twin bool, maxRow
 		rows [][]value.Primary
 	}
 	var decls []decl
+	stdinAt := -1
+	if g.Intn(3) == 0 {
+		stdinAt = g.Intn(ntab)
+	}
 	for k := 0; k < ntab; k++ {
 		t := &Tab{Name: fmt.Sprintf("t%d", k+1), File: g.Intn(5) < 3, Kind: map[string]int{"id": KInt}}
+		if k == stdinAt {
+			t.Name, t.File, t.Stdin = "stdin", false, true
+		}
 		nc := 1 + g.Intn(3)
 		t.Cols = []string{"id"}
 		for j := 0; j < nc; j++ {
@@ -373,6 +383,21 @@ func NewSequence(g *hc.Gen, o *hc.Out, root string, seqNo int, twin bool, maxRow
 		pr.SetCPU(r.CPU)
 		for _, d := range decls {
 			if d.t.File {
+				continue
+			}
+			if d.t.Stdin {
+				var sb strings.Builder
+				sb.WriteString(strings.Join(d.t.Cols, ",") + "\n")
+				for _, row := range d.rows {
+					cs := make([]string, len(row))
+					for j, c := range row {
+						cs[j] = csvText(c)
+					}
+					sb.WriteString(strings.Join(cs, ",") + "\n")
+				}
+				if err := pr.P.Tx.Session.SetStdin(io.NopCloser(strings.NewReader(sb.String()))); err != nil {
+					o.Law("setup_failed", err.Error())
+				}
 				continue
 			}
 			var sb strings.Builder
@@ -1434,6 +1459,20 @@ func (r *Runner) genCreate(t *Tab, f *Fault) *Stmt {
 		s.SQL = "CREATE TABLE tdup (a, b, a)"
 		s.Op = "create tdup 3 a b a"
 		return s
+	case "casecoll":
+		// a name that differs only in letter case from a table that is OPEN in this transaction (its lock file exists)
+		if !t.File {
+			return nil
+		}
+		if _, err := os.Stat(filepath.Join(r.Dir, "."+t.Name+".csv.lock")); err != nil {
+			return nil
+		}
+		up := strings.ToUpper(t.Name) + g.Pick(".CSV", ".csv", ".Csv")
+		s.SQL = fmt.Sprintf("CREATE TABLE `%s` (a, b)", up)
+		if g.Intn(2) == 0 {
+			s.SQL = fmt.Sprintf("CREATE TABLE `%s` (a, b) AS SELECT 1, 2", up)
+		}
+		return s // law-only: the model's table names are exact
 	case "exists":
 		if !t.File {
 			return nil
@@ -1632,10 +1671,14 @@ func (c cancelCtx) Err() error {
 }
 
 type Outcome struct {
-	Err    error
-	Line   string // the implementation's canonical answer
-	Counts map[string]int
-	Failed []string // direct laws that failed
+	// TouchedStdin: the statement loaded the STDIN table; csvq takes the stdin lock again for every data-changing
+	// statement (the loaded view is never marked "for update"), so a second such statement in the same transaction
+	// waits for the lock time-out: the streams COMMIT after every statement that touches STDIN
+	TouchedStdin bool
+	Err          error
+	Line         string // the implementation's canonical answer
+	Counts       map[string]int
+	Failed       []string // direct laws that failed
 }
 
 // Exec runs st on the main processor, checks the direct laws, records the case (if the model has an op for it).
@@ -1643,6 +1686,7 @@ func (r *Runner) Exec(st *Stmt, cancelAt int64) *Outcome {
 	o := r.O
 	before := r.snapAll()
 	marksBefore := Marks(r.Pr)
+	filesBefore := r.listing()
 	matched := map[string][]string{}
 	matchOK := true
 	for k, q := range st.MatchSQL {
@@ -1751,6 +1795,28 @@ func (r *Runner) Exec(st *Stmt, cancelAt int64) *Outcome {
 			o.Law("failed_statement_changed_marks", rp)
 			out.Failed = append(out.Failed, "failed_statement_changed_marks")
 		}
+		// files: a failed statement removes nothing (not even the lock / temporary files of tables that are open in
+		// the transaction) and leaves no new visible file; it may have opened a table (new hidden lock / temp files)
+		filesAfter := r.listing()
+		var gone, added []string
+		for f := range filesBefore {
+			if !filesAfter[f] {
+				gone = append(gone, f)
+			}
+		}
+		for f := range filesAfter {
+			if !filesBefore[f] && !strings.HasPrefix(f, ".") {
+				added = append(added, f)
+			}
+		}
+		if len(gone)+len(added) > 0 {
+			sort.Strings(gone)
+			sort.Strings(added)
+			rp := replay()
+			rp["files_removed"], rp["files_created"] = gone, added
+			o.Law("failed_statement_changed_files", rp)
+			out.Failed = append(out.Failed, "failed_statement_changed_files")
+		}
 		code := ErrNum(err)
 		if code < 0 || code == query.ErrorFatal {
 			o.Law("internal_error", replay())
@@ -1798,6 +1864,7 @@ func (r *Runner) Exec(st *Stmt, cancelAt int64) *Outcome {
 	if st.Op != "" && (cancelAt == 0 || err == nil) {
 		o.Case("c05."+st.Op, strings.TrimRight(out.Line, " "))
 	}
+	out.TouchedStdin = strings.Contains(" "+st.Op+" ", " stdin ") || strings.Contains(st.Op, "$stdin.")
 	return out
 }
 
@@ -1860,6 +1927,23 @@ func FileText(dir, name string) (string, error) {
 // Commit commits on the main (and twin) processor, compares the committed state with the model, and re-sends
 // the file-backed tables (they are re-read from the files, as text, by the following statements).
 func (r *Runner) Commit() { r.CommitAt(0) }
+
+// listing: the names of all directory entries of the repository, hidden lock / temporary files included
+func (r *Runner) listing() map[string]bool {
+	m := map[string]bool{}
+	es, _ := os.ReadDir(r.Dir)
+	for _, e := range es {
+		m[e.Name()] = true
+	}
+	return m
+}
+
+// AfterStdin commits (main and control run) when the statement touched the STDIN table.
+func (r *Runner) AfterStdin(out *Outcome) {
+	if out != nil && out.TouchedStdin {
+		r.Commit()
+	}
+}
 
 func (r *Runner) fileBytes() map[string]string {
 	m := map[string]string{}
@@ -2104,7 +2188,7 @@ func KnownReplaceWitness(g *hc.Gen, o *hc.Out, root string) {
 
 type fixedTab struct {
 	name string
-	file bool
+	file bool // name "stdin" with file == false: the session's STDIN table
 	cols []string
 	rows [][]int
 }
@@ -2117,7 +2201,7 @@ func newFixedRunner(g *hc.Gen, o *hc.Out, root, tag string, tabs []fixedTab) *Ru
 	_ = os.MkdirAll(r.Dir, 0o755)
 	_ = os.MkdirAll(r.TwinDir, 0o755)
 	for _, ft := range tabs {
-		t := &Tab{Name: ft.name, File: ft.file, Cols: append([]string{}, ft.cols...), Kind: map[string]int{}, NextID: len(ft.rows)}
+		t := &Tab{Name: ft.name, File: ft.file, Stdin: ft.name == "stdin", Cols: append([]string{}, ft.cols...), Kind: map[string]int{}, NextID: len(ft.rows)}
 		for _, c := range ft.cols {
 			t.Kind[c] = KInt
 		}
@@ -2141,6 +2225,19 @@ func newFixedRunner(g *hc.Gen, o *hc.Out, root, tag string, tabs []fixedTab) *Ru
 		pr.SetCPU(1)
 		for _, ft := range tabs {
 			if ft.file {
+				continue
+			}
+			if ft.name == "stdin" {
+				var sb strings.Builder
+				sb.WriteString(strings.Join(ft.cols, ",") + "\n")
+				for _, row := range ft.rows {
+					cs := make([]string, len(row))
+					for j, v := range row {
+						cs[j] = strconv.Itoa(v)
+					}
+					sb.WriteString(strings.Join(cs, ",") + "\n")
+				}
+				_ = pr.P.Tx.Session.SetStdin(io.NopCloser(strings.NewReader(sb.String())))
 				continue
 			}
 			var sb strings.Builder
@@ -2202,10 +2299,20 @@ func twoTargetDelete(a, b string) *Stmt {
 // Returns (number of cancelled attempts, completed, a law failed).
 func (r *Runner) ScanCancel(st *Stmt, maxAt int64, mustComplete bool) (int, bool, bool) {
 	for at := int64(1); at <= maxAt; at++ {
+		if r.ReloadEachAttempt {
+			// nothing is pending: ROLLBACK drops the cached tables, so every attempt loads its tables again and the
+			// cancellation also falls into the context checks of the LOADING (every 16 records)
+			if _, err := r.Pr.Exec("ROLLBACK;"); err != nil {
+				r.O.Law("rollback_failed", err.Error())
+			}
+		}
 		out := r.Exec(st, at)
 		r.O.Count("fault:cancel_scan")
 		if out.Err == nil {
 			r.TwinExec(st)
+		}
+		r.AfterStdin(out)
+		if out.Err == nil {
 			r.O.Count("cancel_scan_completed:" + st.Kind)
 			return int(at - 1), true, false
 		}
@@ -2302,7 +2409,7 @@ func NestedCorpus(g *hc.Gen, o *hc.Out, root string) {
 					continue
 				}
 				st.Wrap = wrap
-				r.Exec(st, 0)
+				r.AfterStdin(r.Exec(st, 0))
 				o.Count("corpus:nested:" + wrap)
 			}
 		}
@@ -2430,4 +2537,146 @@ func CommitCorpus(g *hc.Gen, o *hc.Out, root string) {
 		}
 	}
 	o.Law("commit_scan_did_not_complete", "150 context checks")
+}
+
+// StdinCorpus runs first on every c05 run: the session's STDIN table — an updatable in-memory table that is neither a
+// file nor a DECLAREd temporary table — as the target of every statement kind (and as one of the tables of the
+// multi-table forms), at the top level and inside nested blocks, read back in the same session after every statement.
+func StdinCorpus(g *hc.Gen, o *hc.Out, root string) {
+	rows := [][]int{{0, 5, 1}, {1, 6, 0}, {2, 7, 3}, {3, 8, 2}}
+	r := newFixedRunner(g, o, root, "corpus-stdin", []fixedTab{
+		{"stdin", false, []string{"id", "a", "b"}, rows}, {"f1", true, []string{"id", "e", "f"}, rows},
+		{"m1", false, []string{"id", "p", "q"}, rows},
+	})
+	r.OnlyFailureLaws = false
+	defer r.Close()
+	sd, f1, m1 := r.Tabs[0], r.Tabs[1], r.Tabs[2]
+	for round, wrap := range []string{"plain", "if", "func", "plain"} {
+		other := f1
+		if round%2 == 1 {
+			other = m1
+		}
+		gens := []func() *Stmt{
+			func() *Stmt { return r.genInsert(sd, nil, false) },
+			func() *Stmt { return r.genInsertSelect(sd, other, nil) },
+			func() *Stmt { return r.genUpdate(sd, nil) },
+			func() *Stmt { return r.genInsert(sd, nil, true) },
+			func() *Stmt { return r.genReplaceSelect(sd, other, nil) },
+			func() *Stmt { return r.genUpdateMulti(sd, other, nil) },
+			func() *Stmt { return r.genUpdateMulti(other, sd, nil) },
+			func() *Stmt { return r.genAddCol(sd, nil) },
+			func() *Stmt { return r.genRename(sd, nil) },
+			func() *Stmt { return r.genDropCol(sd, nil) },
+			func() *Stmt { return r.genDeleteMulti(sd, other, nil) },
+			func() *Stmt { return r.genInsertSelect(other, sd, nil) },
+			func() *Stmt { return r.genDelete(sd, nil) },
+			func() *Stmt { return r.genInsert(sd, nil, false) },
+		}
+		for _, gen := range gens {
+			st := gen()
+			if st == nil {
+				continue
+			}
+			st.Wrap = wrap
+			r.AfterStdin(r.Exec(st, 0))
+			o.Count("corpus:stdin")
+		}
+	}
+}
+
+// LoadCancelCorpus (c08, first on every run): cancellation at EVERY context check of statements over file-backed
+// tables of 40 and 100 records that are loaded afresh in every attempt (ROLLBACK before it), so that the check
+// falls into the LOADING of a table (every 16 records) as well as into the statement's own evaluation; tables, marks
+// and files around every attempt, and after the completed statement a COMMIT compared with the control run.
+func LoadCancelCorpus(g *hc.Gen, o *hc.Out, root string) {
+	mk := func(n int) [][]int {
+		rows := make([][]int, n)
+		for i := range rows {
+			rows[i] = []int{i, 100 + i}
+		}
+		return rows
+	}
+	r := newFixedRunner(g, o, root, "corpus-loadcancel", []fixedTab{
+		{"f1", true, []string{"id", "a"}, mk(40)}, {"f2", true, []string{"id", "e"}, mk(100)}, {"m1", false, []string{"id", "p"}, mk(3)},
+	})
+	defer r.Close()
+	r.ReloadEachAttempt = true
+	upd := func(t, c string) *Stmt {
+		e := Bin("+", "+", Col(t, c, false), Int(1))
+		cond := Bin("<", "lt", Col(t, "id", false), Int(3))
+		return &Stmt{Kind: "update", Targets: []string{t}, Wrap: "plain",
+			SQL: fmt.Sprintf("UPDATE %s SET %s = %s WHERE %s", t, c, e.SQL, cond.SQL),
+			Op:  fmt.Sprintf("update %s 1 %s %s %s", t, c, e.Tok, cond.Tok)}
+	}
+	insSel := func(t, src string) *Stmt {
+		idEx := Bin("+", "+", Col(src, "id", false), Int(1000))
+		cond := Bin("<", "lt", Col(src, "id", false), Int(2))
+		tt := r.Tab(t)
+		return &Stmt{Kind: "insertsel", Targets: []string{t}, Wrap: "plain",
+			SQL: fmt.Sprintf("INSERT INTO %s (%s) SELECT %s, %s FROM %s WHERE %s", t, strings.Join(tt.Cols, ", "), idEx.SQL, r.Tab(src).Cols[1], src, cond.SQL),
+			Op:  fmt.Sprintf("insertsel %s %s %s 2 %s $%s %s", t, fieldsTok(tt.Cols), src, idEx.Tok, r.Tab(src).Cols[1], cond.Tok)}
+	}
+	stmts := []*Stmt{upd("f1", "a"), upd("f2", "e"), insSel("m1", "f2"), insSel("f1", "f2"), keepFirst(r.Tab("f2"), 30)}
+	for _, st := range stmts {
+		n, done, failed := r.ScanCancel(st, 3000, true)
+		o.Count(fmt.Sprintf("corpus_loadcancel_attempts~%d", n/50*50))
+		if failed || !done {
+			return
+		}
+		r.CompareTwin("load-cancel corpus: " + st.SQL)
+		r.Commit()
+	}
+}
+
+// CreateCorpus (c08, first on every run): CREATE TABLE statements that must fail while tables are open in the
+// transaction — a name that collides only case-insensitively with an open table, an existing file, duplicate columns,
+// a failing AS SELECT — with tables, marks and the directory (lock / temporary files of the open tables included)
+// compared around each, then further updates and a COMMIT compared with the control run.
+func CreateCorpus(g *hc.Gen, o *hc.Out, root string) {
+	rows := [][]int{{0, 5}, {1, 6}, {2, 7}}
+	r := newFixedRunner(g, o, root, "corpus-create", []fixedTab{
+		{"f1", true, []string{"id", "a"}, rows}, {"f2", true, []string{"id", "e"}, rows}, {"m1", false, []string{"id", "p"}, rows},
+	})
+	defer r.Close()
+	bump := func(t, c string) bool {
+		e := Bin("+", "+", Col(t, c, false), Int(1))
+		st := &Stmt{Kind: "update", Targets: []string{t}, Wrap: "plain", SQL: fmt.Sprintf("UPDATE %s SET %s = %s WHERE TRUE", t, c, e.SQL),
+			Op: fmt.Sprintf("update %s 1 %s %s %s", t, c, e.Tok, True().Tok)}
+		out := r.Exec(st, 0)
+		if out.Err == nil {
+			r.TwinExec(st)
+		}
+		return out.Err == nil && len(out.Failed) == 0
+	}
+	if !bump("f1", "a") || !bump("f2", "e") {
+		return
+	}
+	law := func(sql string) *Stmt {
+		return &Stmt{Kind: "create", SQL: sql, Targets: []string{}, Wrap: "plain", Fault: &Fault{Kind: "casecoll"}}
+	}
+	failing := []*Stmt{
+		law("CREATE TABLE `F1.CSV` (a, b)"),
+		law("CREATE TABLE `F2.csv` (a, b) AS SELECT 1, 2"),
+		law("CREATE TABLE `f1.CSV` (x)"),
+		{Kind: "create", SQL: "CREATE TABLE `f1.csv` (a, b)", Op: "create f1 2 a b", Targets: []string{}, Wrap: "plain", Fault: &Fault{Kind: "exists"}},
+		{Kind: "create", SQL: "CREATE TABLE tdup (a, b, a)", Op: "create tdup 3 a b a", Targets: []string{}, Wrap: "plain", Fault: &Fault{Kind: "dup"}},
+		law("CREATE TABLE `tq.csv` (a, b) AS SELECT id, 1 / (id - 1) FROM f2"),
+	}
+	for _, st := range failing {
+		out := r.Exec(st, 0)
+		o.Count("corpus:create")
+		if out.Err == nil {
+			o.Law("corpus_statement_did_not_fail", map[string]string{"sql": st.SQL})
+			return
+		}
+		if len(out.Failed) > 0 {
+			return
+		}
+		r.CompareTwin("create corpus: after " + st.SQL)
+		if !bump("f1", "a") {
+			return
+		}
+	}
+	r.Commit()
+	r.CompareTwin("create corpus: after COMMIT")
 }
